@@ -459,3 +459,6 @@ def rules(ctx):
             o.rule = "C06.values"
             o.key = o.key.replace("C08.values", "C06.values")
     ctx.floors.pop("C08.values", None)
+    from . import common_backend as _Bk
+    ctx.shared(_Bk.mode_routing, "C06.mode-routing")
+    ctx.shared(_Bk.prep_reset, "C06.prep-reset")
